@@ -15,6 +15,12 @@ chk("C06",
     "Coq proof (structural induction over strings via a 4-state scanner) + regenerated-model tie + vm_compute correspondence",
     "DESIGN.md §4 C06")
 
+chk("C20",
+    "Coq theorems over the model of io/lfs.py and io/lustrehsm.py: for every path (any bytes, state keywords included) the state read from '<path>:<flags>' and the restore-in-progress answer depend on the text after the prefix only (the unrepaired hsm_restoring is refuted in Coq: F-C20a); _restore_wait for every reported state x restore outcome keeps the _restoring set and the _restore_start dict on the same keys, never raises KeyError, removes the file on every final answer and keeps it while waiting, lifted by induction to every history of calls about any files (a file stays marked only while the last answer about it was 'wait'); hashing / ready / open only when the file system reports restored or unarchived; release_files = exactly the healthy, ready, restored copies of the shortest last_update-ordered prefix reaching the shortfall, nothing when headroom is met or free space unknown; idle refresh sets ready iff resident and records missing files absent. Tie: word tests, prefix stripping, run_lfs classification, shortfall arithmetic and stop test re-translated from /repo on every run (T1, skeletons of the other functions pinned); six correspondence families through the real LFS / LustreHSMNodeIO evaluated by the model in Coq (T2); end-to-end histories against a scripted Lustre-HSM stand-in (evolving residency, faults and time-outs at any lfs call, roots containing the keywords) under monitors incl. quiescence (every waiting task ends once the file system is healthy).",
+    "Coq kernel+VM; translator fragment; lfs(1) stand-in prints the documented format; each _restore_wait call atomic w.r.t. other tasks and residency constant within one task (modelled, not verified); sqlite ordering by correspondence",
+    "Coq proof (case analysis + induction over call histories and candidate lists) + regenerated guards tie + vm_compute correspondence + monitored histories",
+    "DESIGN.md §4 C20")
+
 chk("C19",
     "Coq theorems over the model of QueryWalker.get (the two queries and the wrap loop over the ascending live-id list): every call returns exactly n rows in cyclic order from the cursor, cursor = last+1, DoesNotExist iff empty; coverage for all table sizes, batch sizes (k > N too), start points and arbitrary table changes that keep x: x is returned within floor((m+a)/k)+1 calls (m rows ahead of x, a rows entering that stretch), hence ceil(N/k) when rows are only removed. The unrestricted ceil(N/k)+1 reading is refuted in Coq (C19_starvation_refuted) and on the real walker (known finding KF-C19). Age filter: strict > min age in UTC seconds. Tie: hand-written model, every get() of the real QueryWalker on sqlite (static exhaustive small tables, dynamic random runs) and the real run_auto_verify age filter under 4 time zones evaluated by the model in Coq (T2).",
     "Coq kernel+VM; peewee/sqlite give the query semantics (list reading validated by correspondence); live-id list supplied by the harness",
